@@ -38,11 +38,15 @@ T0 = 1500000000                      # virtual epoch (2017-07-14 02:40:00 UTC); 
 FLAVOURS = ['tms', 'wmts_kvp', 'wmts_rest', 'kml', 'wmsc']
 HANDLER = {'tms': 'service/tile.py', 'wmts_kvp': 'service/wmts.py', 'wmts_rest': 'service/wmts.py',
            'kml': 'service/kml.py', 'wmsc': 'service/wms.py'}
-PATHS = ['single', 'meta', 'bulk', 'merge']
+PATHS = ['single', 'meta', 'bulk', 'merge', 'link']
 # 'merge' is a second world for the model path "single": a cache with two sources (an opaque base and a transparent
 # overlay) whose images MapProxy merges; on an upstream failure the overlay is the one that answers 500 and is mapped by
 # on_error to a fully transparent, uncacheable image - the mark has to survive the merge
-MPATH = {'single': 'single', 'meta': 'meta', 'bulk': 'bulk', 'merge': 'single'}
+# 'link' is a third world for the model path "single" (file cache only): link_single_color_images - a tile of one colour
+# is a symbolic link to an image that all tiles of that colour share; that image may be much older than the tile (the
+# harness dates it back to long before the run), the validators have to come from the tile's own directory entry
+MPATH = {'single': 'single', 'meta': 'meta', 'bulk': 'bulk', 'merge': 'single', 'link': 'single'}
+COMBOS = [(b, p) for b in ['file', 'sqlite'] for p in PATHS if not (b == 'sqlite' and p == 'link')]
 BACKENDS = ['file', 'sqlite']
 # tiles of level 1 of the grid (4 x 4 tiles, north-west origin): t1,t2 share a 2x2 meta tile, t3,t4 the next one
 COORD = {'t1': (0, 0, 1), 't2': (1, 0, 1), 't3': (2, 0, 1), 't4': (3, 0, 1)}
@@ -172,7 +176,7 @@ def _conf(d, backend):
         return conf
 
     on_error = {500: {'response': [255, 0, 0], 'cache': False}}
-    return {
+    conf = {
         'globals': {'image': {'paletted': False},
                     'cache': {'base_dir': os.path.join(d, 'cd'), 'lock_dir': os.path.join(d, 'locks'),
                               'tile_lock_dir': os.path.join(d, 'tlocks')}},
@@ -199,6 +203,10 @@ def _conf(d, backend):
                    {'name': 'bulk', 'title': 'b', 'sources': ['c_bulk']},
                    {'name': 'merge', 'title': 'g', 'sources': ['c_merge']}],
     }
+    if backend == 'file':
+        conf['caches']['c_link'] = cache('link', 'w', meta_size=[1, 1], meta_buffer=0, link_single_color_images=True)
+        conf['layers'].append({'name': 'link', 'title': 'k', 'sources': ['c_link']})
+    return conf
 
 
 def _url(flavour, layer, coord):
@@ -276,10 +284,16 @@ class World(object):
             return
         ns = T0 * 10 ** 9 + self.clock * 5 * 10 ** 8
         for root, _dirs, files in os.walk(self.cache_dir):
+            shared = os.path.basename(root) == 'single_color_tiles'
             for fn in files:
                 p = os.path.join(root, fn)
                 if os.lstat(p).st_mtime > T0 + 10 ** 8:
-                    os.utime(p, ns=(ns, ns))
+                    if shared:
+                        # the image that all tiles of one colour link to: stored long ago (for some other tile)
+                        old = (T0 - 100000) * 10 ** 9
+                        os.utime(p, ns=(old, old))
+                    else:
+                        os.utime(p, ns=(ns, ns), follow_symlinks=False)
 
     def tick(self):
         self.clock += 1
@@ -377,7 +391,8 @@ FIXED = {'CopyInfo': True, 'ResetStamp': True, 'Branch': frozenset(FLAVOURS)}
 def consts(backend, path, flags, tiles=('t1', 't2'), flavours=FLAVOURS, maxclock=4, sizes=(1, 2), lenient=True):
     return dict(Lenient=lenient, Tiles=set(tiles), MetaOf={t: set(META[t]) & set(tiles) for t in tiles}, Flavours=set(flavours),
                 Backend=backend, Path=MPATH[path], CopyInfo=bool(flags['CopyInfo']), ResetStamp=bool(flags['ResetStamp']),
-                BranchFlavours=set(flags['Branch']), MaxClock=maxclock, Sizes=set(sizes))
+                BranchFlavours=set(flags['Branch']), MaxClock=maxclock, Sizes=set(sizes),
+                LinkedSizes={1} if path == 'link' else set())
 
 
 def flags_text(flags):
@@ -599,7 +614,7 @@ def detect(ctx, backend):
     cxs = parallel([(lambda v=v: counterexample(ctx, '%s-%s' % (backend, v[0]), backend, v[0], v[1],
                                                 sorted(branch) or FLAVOURS)) for v in variants])
     for (mpath, vflags, key, defect), (prop, cx) in zip(variants, cxs):
-        for path in (['single', 'merge'] if mpath == 'single' else ['meta', 'bulk']):
+        for path in ((['single', 'merge'] + (['link'] if backend == 'file' else [])) if mpath == 'single' else ['meta', 'bulk']):
             ok, _ = reproduce(backend, path, cx)
             ctx.count(('cx', backend, key, path))
             fl = dict(FIXED, Branch=frozenset(branch))
@@ -643,7 +658,7 @@ def simulate(ctx, backend, path, flags, num, depth):
 
 
 def replay_phase(ctx, flags_by, num, depth):
-    combos = [(b, p) for b in BACKENDS for p in PATHS]
+    combos = list(COMBOS)
     all_behs = parallel([(lambda b=b, p=p: simulate(ctx, b, p, flags_by[b][p], num, depth)) for b, p in combos])
     acts = set()
     for (backend, path), behs in zip(combos, all_behs):
@@ -812,7 +827,7 @@ def validate(ctx, name, backend, path, flags, traces, tiles=('t1', 't2', 't3', '
 
 
 def trace_phase(ctx, flags_by, ntraces, nsteps):
-    combos = [(b, p) for b in BACKENDS for p in PATHS]
+    combos = list(COMBOS)
     batches = []
     for backend, path in combos:
         trs = [random_history(ctx.rng, backend, path, nsteps) for _ in range(ntraces)]
@@ -912,6 +927,9 @@ def model_phase(ctx, flags_by):
         for path in ('single', 'meta'):
             names.append((backend, path, FIXED))
             jobs.append(lambda b=backend, p=path: exhaustive(ctx, 'fixed-%s-%s' % (b, p), b, p, FIXED, maxver, maxclock, workers=4))
+    # tiles of one colour kept as links to a shared image (their size read back is that of the link)
+    names.append(('file', 'link', FIXED))
+    jobs.append(lambda: exhaustive(ctx, 'fixed-file-link', 'file', 'link', FIXED, maxver, maxclock, workers=4))
     if thorough:
         names.append(('file', 'meta', FIXED))
         jobs.append(lambda: exhaustive(ctx, 'fixed-3tiles', 'file', 'meta', FIXED, 3, 6, tiles=('t1', 't2', 't3'), workers=4))
